@@ -214,12 +214,13 @@ type ProcSpec struct {
 	Run     string            // -test.run
 	Par     int               // -test.parallel
 	Shuffle string            // -test.shuffle
+	Noise   bool              // ambient settings the mode table does not mention: a -update flag of the host test binary, UPDATE / UPDATE_GOLDEN / ... variables
 	Env     map[string]string // extra
 	Dir     string            // working directory ("" = the package directory of the binary)
 	Variant string            // driver variant: "", "trimpath", "deep", "deep-trimpath"
 }
 
-func (p *ProcSpec) ciOn() bool { return p.CI == "CI" || p.CI == "GITHUB_ACTIONS" }
+func (p *ProcSpec) ciOn() bool { return p.CI == "CI" || p.CI == "GITHUB_ACTIONS" || p.CI == "BUILD_NUMBER" }
 
 func (p *ProcSpec) updvarClass() string {
 	if p.UpdVar == nil {
@@ -237,7 +238,7 @@ func (p *ProcSpec) sig() string {
 	if p.UpdVar != nil {
 		uv = *p.UpdVar
 	}
-	return fmt.Sprintf("%s|%s|%v|%d|%s|%d|%s|%v", p.CI, uv, p.Color, p.Count, p.Run, p.Par, p.Shuffle, p.Env)
+	return fmt.Sprintf("%s|%s|%v|%d|%s|%d|%s|%v|%v", p.CI, uv, p.Color, p.Count, p.Run, p.Par, p.Shuffle, p.Env, p.Noise)
 }
 
 // runDriver executes the driver binary once with a script; returns its raw events.
@@ -251,6 +252,9 @@ func runDriver(d *Driver, p *ProcSpec, scriptPath, tracePath string, timeout tim
 	}
 	if p.Par > 0 {
 		args = append(args, "-test.parallel", fmt.Sprint(p.Par))
+	}
+	if p.Noise {
+		args = append(args, "-update", "-u")
 	}
 	if p.Shuffle != "" {
 		args = append(args, "-test.shuffle", p.Shuffle)
@@ -275,6 +279,8 @@ func runDriver(d *Driver, p *ProcSpec, scriptPath, tracePath string, timeout tim
 		env = append(env, "CI=true")
 	case "GITHUB_ACTIONS":
 		env = append(env, "GITHUB_ACTIONS=true")
+	case "BUILD_NUMBER": // a build server that sets only the generic counters (no vendor variable)
+		env = append(env, "BUILD_NUMBER=42")
 	case "CI=false": // explicit opt-out wins over a vendor variable
 		env = append(env, "CI=false", "GITHUB_ACTIONS=true")
 	}
@@ -283,6 +289,9 @@ func runDriver(d *Driver, p *ProcSpec, scriptPath, tracePath string, timeout tim
 	}
 	if !p.Color {
 		env = append(env, "NO_COLOR=1")
+	}
+	if p.Noise {
+		env = append(env, "UPDATE=true", "UPDATE_GOLDEN=1", "UPDATE_SNAPSHOTS=true", "SNAPSHOT_UPDATE=1", "UPDATE_SNAP=true", "SNAPS_UPDATE=true", "GOLDEN=1")
 	}
 	for k, v := range p.Env {
 		env = append(env, k+"="+v)
